@@ -284,6 +284,15 @@ def _classifying_setcomp(c: ast.expr) -> bool:
                 for t in c.generators[0].ifs for y in ast.walk(t))
 
 
+def _reach_map_dictcomp(c: ast.expr) -> bool:
+    """`{s: <.. nx.descendants(G, s) ..> for s in ids}`: a reachability table, read by the rules as the loop that fills it"""
+    return isinstance(c, ast.DictComp) and len(c.generators) == 1 and not c.generators[0].ifs and isinstance(c.generators[0].target, ast.Name) \
+        and isinstance(c.key, ast.Name) and c.key.id == c.generators[0].target.id \
+        and any(isinstance(y, ast.Call) and ((isinstance(y.func, ast.Attribute) and y.func.attr in ("descendants", "ancestors"))
+                                             or (isinstance(y.func, ast.Name) and y.func.id in ("descendants", "ancestors")))
+                for y in ast.walk(c.value))
+
+
 class _DropAnn(ast.NodeTransformer):
     """`x: T = v` inside functions -> `x = v` (annotation kept as `_ann`): annotations of locals have no run-time
     meaning, and rules should not depend on whether a local is annotated."""
@@ -475,7 +484,7 @@ class _DropAnn(ast.NodeTransformer):
         # X = {e for a in A for b in B ..}  ->  X = set(); for a in A: for b in B: .. X.add(e)    (several generators)
         if self.depth > 0 and len(n.targets) == 1 and isinstance(n.targets[0], ast.Name) \
                 and isinstance(n.value, (ast.SetComp, ast.ListComp, ast.DictComp)) \
-                and (len(n.value.generators) >= 2 or _classifying_setcomp(n.value)) \
+                and (len(n.value.generators) >= 2 or _classifying_setcomp(n.value) or _reach_map_dictcomp(n.value)) \
                 and not any(g.is_async for g in n.value.generators):
             X = n.targets[0].id
             if not any(isinstance(y, ast.Name) and y.id == X for y in ast.walk(n.value)):
@@ -974,6 +983,235 @@ def _split_joined_adds(fn: ast.FunctionDef) -> int:
     return count
 
 
+_MUTATORS = {"add", "append", "extend", "update", "pop", "remove", "clear", "insert", "discard", "setdefault", "sort", "reverse",
+             "popitem", "add_edge", "add_node", "remove_node", "remove_edge", "_ensure_node", "_ensure_edge", "_expand_one_node",
+             "build", "expand_bfs", "expand_dfs", "expand_minimal_spaces", "expand_attractor_seeds", "expand_to_target", "expand_scc",
+             "expand_block", "skip_to_minimal", "skip_remaining", "reclaim_node_data"}
+
+
+def _strip_bool_in_tests(e: ast.expr) -> ast.expr:
+    """`bool(E)` in a test position is E"""
+    if isinstance(e, ast.Call) and isinstance(e.func, ast.Name) and e.func.id == "bool" and len(e.args) == 1 and not e.keywords:
+        return _strip_bool_in_tests(e.args[0])
+    if isinstance(e, ast.UnaryOp) and isinstance(e.op, ast.Not):
+        e.operand = _strip_bool_in_tests(e.operand)
+    elif isinstance(e, ast.BoolOp):
+        e.values = [_strip_bool_in_tests(v) for v in e.values]
+    elif isinstance(e, ast.Call) and isinstance(e.func, ast.Name) and e.func.id in ("any", "all") and len(e.args) == 1 \
+            and isinstance(e.args[0], (ast.GeneratorExp, ast.ListComp)):
+        e.args[0].elt = _strip_bool_in_tests(e.args[0].elt)
+    return e
+
+
+def _fuse_filter_pipeline(fn: ast.FunctionDef) -> int:
+    """A = [x for x in SRC if C1];  B = [x for x in A if C2];  flag = len(A) > 0;  for s in B: BODY      (A, B read nowhere else)
+       ->   flag = False;  for s in SRC: if not C1: continue;  flag = True;  if not C2: continue;  BODY
+
+    Selecting by two comprehension filters and looping afterwards is the loop with two skip tests, provided BODY changes nothing
+    that the filters read (checked on names: no store, no mutating method, no growth call on a name the filters mention)."""
+    import copy as _copy
+    count = 0
+
+    def comp_of(st, want_src=None):
+        if not (isinstance(st, ast.Assign) and len(st.targets) == 1 and isinstance(st.targets[0], ast.Name) and isinstance(st.value, ast.ListComp)):
+            return None
+        c = st.value
+        if len(c.generators) != 1 or c.generators[0].is_async or not c.generators[0].ifs:
+            return None
+        g = c.generators[0]
+        if not (isinstance(g.target, ast.Name) and isinstance(c.elt, ast.Name) and c.elt.id == g.target.id):
+            return None
+        return st.targets[0].id, g.target.id, g.iter, g.ifs
+
+    def uses(name):
+        return [y for y in ast.walk(fn) if isinstance(y, ast.Name) and y.id == name]
+
+    def block(body: list) -> None:
+        nonlocal count
+        for j, L in enumerate(body):
+            if not (isinstance(L, ast.For) and isinstance(L.iter, ast.Name) and isinstance(L.target, ast.Name) and not L.orelse):
+                continue
+            # walk back over the statements right before the loop
+            pre = {}
+            k = j - 1
+            while k >= 0 and isinstance(body[k], ast.Assign) and len(body[k].targets) == 1 and isinstance(body[k].targets[0], ast.Name):
+                pre[body[k].targets[0].id] = (k, body[k])
+                k -= 1
+            E = L.iter.id
+            chain = [E]
+            while E in pre and isinstance(pre[E][1].value, ast.Name):
+                E = pre[E][1].value.id
+                chain.append(E)
+            if E not in pre:
+                continue
+            cb = comp_of(pre[E][1])
+            if cb is None or not isinstance(cb[2], ast.Name) or cb[2].id not in pre:
+                continue
+            A = cb[2].id
+            ca = comp_of(pre[A][1])
+            if ca is None:
+                continue
+            # the flag: the one other reader of A
+            flag = None
+            for nm, (k_, st_) in pre.items():
+                v = st_.value
+                if isinstance(v, ast.Compare) and len(v.ops) == 1 and isinstance(v.left, ast.Call) and isinstance(v.left.func, ast.Name) \
+                        and v.left.func.id == "len" and len(v.left.args) == 1 and isinstance(v.left.args[0], ast.Name) and v.left.args[0].id == A \
+                        and isinstance(v.comparators[0], ast.Constant) and ((isinstance(v.ops[0], (ast.Gt, ast.NotEq)) and v.comparators[0].value == 0)
+                                                                            or (isinstance(v.ops[0], ast.GtE) and v.comparators[0].value == 1)):
+                    flag = (nm, k_)
+            # every name of the chain is read exactly once (by the next link), A twice at most (B and the flag)
+            okc = all(len([u for u in uses(n_) if isinstance(u.ctx, ast.Load)]) == 1 and len([u for u in uses(n_) if isinstance(u.ctx, ast.Store)]) == 1
+                      for n_ in chain)
+            a_reads = len([u for u in uses(A) if isinstance(u.ctx, ast.Load)])
+            if not okc or a_reads != (2 if flag else 1) or len([u for u in uses(A) if isinstance(u.ctx, ast.Store)]) != 1:
+                continue
+            involved = {pre[n_][0] for n_ in chain} | {pre[A][0]} | ({flag[1]} if flag else set())
+            lo = min(involved)
+            if any(i not in involved for i in range(lo, j)):
+                continue      # something else sits between the comprehensions and the loop
+            # BODY leaves alone what the filters read
+            fvars = {ca[1], cb[1]}
+            read = {y.id for t in list(ca[3]) + list(cb[3]) + [ca[2]] for y in ast.walk(t) if isinstance(y, ast.Name)} - fvars
+            touched = set()
+            for st_ in L.body:
+                for y in ast.walk(st_):
+                    if isinstance(y, ast.Name) and isinstance(y.ctx, (ast.Store, ast.Del)):
+                        touched.add(y.id)
+                    if isinstance(y, (ast.Subscript, ast.Attribute)) and isinstance(y.ctx, (ast.Store, ast.Del)):
+                        b_ = y.value
+                        while isinstance(b_, (ast.Subscript, ast.Attribute)):
+                            b_ = b_.value
+                        if isinstance(b_, ast.Name):
+                            touched.add(b_.id)
+                    if isinstance(y, ast.Call) and isinstance(y.func, ast.Attribute) and y.func.attr in _MUTATORS:
+                        b_ = y.func.value
+                        while isinstance(b_, (ast.Subscript, ast.Attribute, ast.Call)):
+                            b_ = b_.value if not isinstance(b_, ast.Call) else b_.func
+                        if isinstance(b_, ast.Name):
+                            touched.add(b_.id)
+            s_ = L.target.id
+            if read & touched or (s_ in read) or (flag and flag[0] in read):
+                continue
+
+            class _Ren(ast.NodeTransformer):
+                def __init__(self, old):
+                    self.old = old
+
+                def visit_Name(self, n):
+                    return ast.copy_location(ast.Name(s_, n.ctx), n) if n.id == self.old else n
+
+            def skip_unless(tests, var):
+                out = []
+                for t in tests:
+                    t = _strip_bool_in_tests(_Ren(var).visit(_copy.deepcopy(t)))
+                    neg = t.operand if isinstance(t, ast.UnaryOp) and isinstance(t.op, ast.Not) else ast.UnaryOp(ast.Not(), t)
+                    out.append(ast.If(neg, [ast.Continue()], []))
+                return out
+            new_body = skip_unless(ca[3], ca[1])
+            if flag:
+                new_body.append(ast.Assign([ast.Name(flag[0], ast.Store())], ast.Constant(True)))
+            new_body += skip_unless(cb[3], cb[1]) + L.body
+            L.body = new_body
+            L.iter = ca[2]
+            repl = [ast.Assign([ast.Name(flag[0], ast.Store())], ast.Constant(False))] if flag else []
+            for st_ in repl + [L]:
+                ast.copy_location(st_, body[lo]) if st_ is not L else None
+                ast.fix_missing_locations(st_)
+            for st_ in repl:
+                for y in ast.walk(st_):
+                    if hasattr(y, "lineno"):
+                        y.lineno = y.end_lineno = body[lo].lineno
+            for st_ in L.body[:len(new_body) - len(L.body) if False else None]:
+                pass
+            for st_ in new_body[:len(ca[3]) + len(cb[3]) + (1 if flag else 0)]:
+                for y in ast.walk(st_):
+                    y.lineno = y.end_lineno = L.lineno
+                    y.col_offset = y.end_col_offset = 0
+            body[lo:j + 1] = repl + [L]
+            count += 1
+            return block(body)
+        for st in body:
+            if not isinstance(st, (ast.FunctionDef, ast.ClassDef)):
+                for fld in ("body", "orelse", "finalbody"):
+                    sub = getattr(st, fld, None)
+                    if isinstance(sub, list) and sub and isinstance(sub[0], ast.stmt):
+                        block(sub)
+    block(fn.body)
+    if count:
+        ast.fix_missing_locations(fn)
+    return count
+
+
+def _expand_partials(fn: ast.FunctionDef) -> int:
+    """`f = partial(F, a, k=v)` bound once and only ever called: `f(b, k2=w)` is `F(a, b, k=v, k2=w)`. The frozen arguments are
+    names that are bound once (or parameters never re-bound), so their values at the calls are their values at the definition."""
+    import copy as _copy
+    stores: dict[str, int] = {}
+    for n in ast.walk(fn):
+        if isinstance(n, ast.Name) and isinstance(n.ctx, (ast.Store, ast.Del)):
+            stores[n.id] = stores.get(n.id, 0) + 1
+        if isinstance(n, (ast.Global, ast.Nonlocal)):
+            return 0
+    params = {a.arg for a in fn.args.posonlyargs + fn.args.args + fn.args.kwonlyargs}
+    count = 0
+    for parent in ast.walk(fn):
+        blk = getattr(parent, "body", None)
+        if not isinstance(blk, list):
+            continue
+        for i, st in enumerate(blk):
+            if not (isinstance(st, ast.Assign) and len(st.targets) == 1 and isinstance(st.targets[0], ast.Name) and isinstance(st.value, ast.Call)):
+                continue
+            c = st.value
+            fname = c.func.id if isinstance(c.func, ast.Name) else c.func.attr if isinstance(c.func, ast.Attribute) else None
+            if fname != "partial" or not c.args or not isinstance(c.args[0], (ast.Name, ast.Attribute)):
+                continue
+            a = st.targets[0].id
+            if stores.get(a) != 1 or a in params:
+                continue
+            frozen = list(c.args[1:]) + [k.value for k in c.keywords]
+            if any(k.arg is None for k in c.keywords) or any(isinstance(x, ast.Starred) for x in c.args):
+                continue
+            names = {y.id for e in frozen for y in ast.walk(e) if isinstance(y, ast.Name)}
+            late = {y.id for y in ast.walk(fn) if isinstance(y, ast.Name) and isinstance(y.ctx, (ast.Store, ast.Del))
+                    and getattr(y, "lineno", 0) >= st.lineno and y.id in names}
+            if any(not isinstance(e, (ast.Name, ast.Constant, ast.Attribute)) for e in frozen) or late or parent is not fn:
+                continue      # (defined at the top level of the function, after the last binding of everything it freezes)
+            uses = [y for y in ast.walk(fn) if isinstance(y, ast.Name) and y.id == a and isinstance(y.ctx, ast.Load)]
+            calls = [y for y in ast.walk(fn) if isinstance(y, ast.Call) and isinstance(y.func, ast.Name) and y.func.id == a]
+            if not uses or len(uses) != len(calls) or any(isinstance(x, ast.Starred) for y in calls for x in y.args) \
+                    or any(k.arg is None for y in calls for k in y.keywords):
+                continue
+            for y in calls:
+                given = {k.arg for k in y.keywords}
+                y.func = _copy.deepcopy(c.args[0])
+                y.args = [_copy.deepcopy(e) for e in c.args[1:]] + y.args
+                y.keywords = [_copy.deepcopy(k) for k in c.keywords if k.arg not in given] + y.keywords
+            blk[i] = ast.copy_location(ast.Pass(), st)
+            count += 1
+    if count:
+        ast.fix_missing_locations(fn)
+    return count
+
+
+def _map_loops(fn: ast.FunctionDef) -> int:
+    """`for v in map(list, IT): BODY`  ->  `for _mK in IT: v = list(_mK); BODY`   (a builtin converter applied element by element)"""
+    count = 0
+    for lp in ast.walk(fn):
+        if isinstance(lp, ast.For) and isinstance(lp.iter, ast.Call) and isinstance(lp.iter.func, ast.Name) and lp.iter.func.id == "map" \
+                and len(lp.iter.args) == 2 and not lp.iter.keywords and isinstance(lp.iter.args[0], ast.Name) \
+                and lp.iter.args[0].id in ("list", "tuple", "dict", "set", "frozenset", "sorted") and isinstance(lp.target, ast.Name):
+            count += 1
+            m = f"_m{count}_{lp.target.id}"
+            conv = ast.Assign([ast.Name(lp.target.id, ast.Store())], ast.Call(ast.Name(lp.iter.args[0].id, ast.Load()), [ast.Name(m, ast.Load())], []))
+            ast.copy_location(conv, lp)
+            lp.iter = lp.iter.args[1]
+            lp.target = ast.copy_location(ast.Name(m, ast.Store()), lp.target)
+            lp.body.insert(0, conv)
+            ast.fix_missing_locations(lp)
+    return count
+
+
 def _bulk_none_writes(fn: ast.FunctionDef) -> int:
     """`nx.set_node_attributes(X.dag, None, name="f")`  ->  `for _bk in X.node_ids(): X.node_data(_bk)["f"] = None`
     (only the constant None: discarding a cached field on every node; other bulk writes stay calls, which C20-M1 reports)"""
@@ -1222,10 +1460,72 @@ def _inline_local_constant_tuples(fn: ast.FunctionDef) -> int:
     return count
 
 
+def _inline_row_tables(fn: ast.FunctionDef) -> int:
+    """`rows = ((E1, True), (E2, False))` bound once in some block and read only later in the same block (the iterable of a
+    loop, a generator in a debug print): the rows' computed elements get temporaries at the place of the definition and every
+    read of `rows` is the literal over them, which the unroller then takes apart. Tuples cannot be mutated, so nothing is lost."""
+    import copy as _copy
+    stores: dict[str, int] = {}
+    for n in ast.walk(fn):
+        if isinstance(n, ast.Name) and isinstance(n.ctx, (ast.Store, ast.Del)):
+            stores[n.id] = stores.get(n.id, 0) + 1
+        if isinstance(n, (ast.Global, ast.Nonlocal)):
+            return 0
+    count = 0
+    for parent in ast.walk(fn):
+        for fld in ("body", "orelse", "finalbody"):
+            blk = getattr(parent, fld, None)
+            if not isinstance(blk, list):
+                continue
+            i = 0
+            while i < len(blk):
+                st = blk[i]
+                tg = st.targets[0] if isinstance(st, ast.Assign) and len(st.targets) == 1 else st.target if isinstance(st, ast.AnnAssign) else None
+                v = getattr(st, "value", None)
+                if not (isinstance(tg, ast.Name) and stores.get(tg.id) == 1 and isinstance(v, (ast.Tuple, ast.List)) and 2 <= len(v.elts) <= 4
+                        and all(isinstance(r, ast.Tuple) and 2 <= len(r.elts) <= 3 and len(r.elts) == len(v.elts[0].elts) for r in v.elts)
+                        and not all(isinstance(e, ast.Constant) for r in v.elts for e in r.elts)):
+                    i += 1
+                    continue
+                a = tg.id
+                all_reads = [y for y in ast.walk(fn) if isinstance(y, ast.Name) and y.id == a and isinstance(y.ctx, ast.Load)]
+                later = [y for r in blk[i + 1:] for y in ast.walk(r) if isinstance(y, ast.Name) and y.id == a and isinstance(y.ctx, ast.Load)]
+                if not later or len(all_reads) != len(later) or any(isinstance(y, (ast.Starred, ast.Yield, ast.Lambda)) for r in v.elts for y in ast.walk(r)):
+                    i += 1
+                    continue
+                temps, rows = [], []
+                for ri, r in enumerate(v.elts):
+                    row = []
+                    for ci, e in enumerate(r.elts):
+                        if isinstance(e, (ast.Constant, ast.Name)):
+                            row.append(e)
+                        else:
+                            t = f"_row_{a}_{ri}_{ci}"
+                            temps.append(ast.copy_location(ast.Assign([ast.Name(t, ast.Store())], e), st))
+                            row.append(ast.Name(t, ast.Load()))
+                    rows.append(row)
+
+                class RN(ast.NodeTransformer):
+                    def visit_Name(self, n_):
+                        if n_.id == a and isinstance(n_.ctx, ast.Load):
+                            return ast.copy_location(ast.Tuple([ast.Tuple([_copy.deepcopy(e) for e in row], ast.Load()) for row in rows], ast.Load()), n_)
+                        return n_
+                for k in range(i + 1, len(blk)):
+                    blk[k] = RN().visit(blk[k])
+                blk[i:i + 1] = temps or [ast.copy_location(ast.Pass(), st)]
+                count += 1
+                i += max(1, len(temps))
+    if count:
+        ast.fix_missing_locations(fn)
+    return count
+
+
 def _drop_local_annotations(tree: ast.Module) -> None:
     for x in ast.walk(tree):
         if isinstance(x, ast.FunctionDef):
             _count("local_constant_tuples", _inline_local_constant_tuples(x))
+            _count("row_tables", _inline_row_tables(x))
+            _count("partials_expanded", _expand_partials(x))
             _count("edge_data_locals", _edge_data_locals(x))
             _count("iterator_frames_read_as_lists", _iterator_frames_to_lists(x))
     _DropAnn().visit(tree)
@@ -1249,6 +1549,8 @@ def _drop_local_annotations(tree: ast.Module) -> None:
         if isinstance(x, ast.FunctionDef):
             _count("flag_snapshots", _flag_snapshots(x))
             _count("bulk_none_writes", _bulk_none_writes(x))
+            _count("map_loops", _map_loops(x))
+            _count("filter_pipelines_fused", _fuse_filter_pipeline(x))
             _count("complementary_ifs_merged", _merge_complementary_ifs(x))
             _count("joined_program_texts_split", _split_joined_adds(x))
             _count("while_true_fixpoints", _while_true_flag(x))
